@@ -246,7 +246,12 @@ func (x *explorer) fail(e *Exec, msg string) {
 		if e2.Outcome != "pruned" {
 			m2 = x.check(e2)
 		}
-		if m2 != msg || e2.Outcome != e.Outcome {
+		c2 := m2
+		if i := strings.IndexByte(m2, 0); i >= 0 {
+			c2 = m2[:i]
+		}
+		// the cause key must reproduce; the free-text part may carry incidental detail
+		if c2 != class || (m2 == "") != (msg == "") || e2.Outcome != e.Outcome {
 			fmt.Printf("ERROR nondeterminism: failure %q did not reproduce on replay %d (got %q, outcome %s vs %s) choices=%v\n", msg, i, m2, e2.Outcome, e.Outcome, ch)
 			os.Exit(2)
 		}
